@@ -35,6 +35,12 @@ def random_env(rng, n_ch: int, n_poles: int, n_s: int, complex_beta: bool = True
         lo = float(np.min(ma + mb))
         hi = float(np.sqrt(thr))
         m[1] = rng.uniform(lo + 0.1 * (hi - lo), hi - 0.1 * (hi - lo)) if hi - lo > 0.05 else rng.uniform(0.5 * hi, 0.9 * hi)
+        if subthreshold == "pseudo":
+            # far below: under the pseudo-threshold |m_a - m_b| of a channel with unequal daughter masses
+            ma[0], mb[0] = rng.uniform(0.6, 0.9), rng.uniform(0.05, 0.15)
+            thr = float(np.max((ma + mb) ** 2))
+            m[1:] = np.sort(rng.uniform(np.sqrt(thr) * 1.05, np.sqrt(thr) * 1.05 + 2.0, n_poles))
+            m[1] = rng.uniform(0.3, 0.9) * abs(ma[0] - mb[0])
         m[1:] = np.sort(m[1:])
     G = np.zeros((n_poles + 1, n_ch)); G[1:] = rng.uniform(0.05, 0.4, (n_poles, n_ch))
     g = np.zeros((n_poles + 1, n_ch)); g[1:] = rng.uniform(0.3, 1.5, (n_poles, n_ch))
